@@ -2,6 +2,7 @@ package main
 
 import (
 	"fmt"
+	"sort"
 	"go/ast"
 	"go/constant"
 	"go/printer"
@@ -218,17 +219,34 @@ func (x *Exec) enterLoop(fr *Frame, li *loopInfo, in *State) {
 			in.cells[cell] = x.smt.freshValue(cell.Typ, "lh."+cell.Name)
 		}
 	}
-	if li.heapW {
-		x.havocAll(in, "loop")
+	// heap arrays, ghosts and bindings: havoc exactly those the body was seen to modify
+	// (fixpoint over passes, see edge()).
+	li.key = fmt.Sprintf("%s#%d", fr.fn.String(), li.header.Index)
+	mods := x.loopMods[li.key]
+	for _, name := range sortedKeys(in.heap) {
+		if mods["h:"+name] {
+			in.heap[name] = x.smt.fresh(name+"@l", x.arrays[name])
+		}
 	}
-	if li.anyCall {
-		x.havocGhost(in)
-	} else if li.iter != nil {
+	for _, k := range sortedKeys(in.ghost) {
+		if mods["g:"+k] {
+			in.ghost[k] = x.smt.freshLike(in.ghost[k], "g."+k)
+		}
+	}
+	for _, k := range sortedKeys(in.binds) {
+		if mods["b:"+k] {
+			in.binds[k] = x.smt.freshLike(in.binds[k], "b."+k)
+		}
+	}
+	if li.iter != nil {
 		if g, ok := fr.iters[li.iter]; ok {
-			in.ghost[g] = x.smt.freshLike(in.ghost[g], g)
+			if v, ok := in.ghost[g]; ok && !mods["g:"+g] {
+				in.ghost[g] = x.smt.freshLike(v, g)
+			}
 		}
 	}
 	in.pc = x.smt.def("pc", SBool, in.pc)
+	li.head = in.clone()
 	for _, c := range invs {
 		env := x.newEnv(fr, in)
 		env.loop = li
@@ -270,6 +288,7 @@ func (x *Exec) edge(fr *Frame, st *State, from, to *ssa.BasicBlock, cond Term, e
 		}
 		es := st.clone()
 		es.pc = pc
+		x.recordLoopMods(li, es)
 		for _, c := range x.loopInvariants(fr, li) {
 			x.obligeClause(fr, es, c, "inv-step", loopAnchor(li), func(env *Env) { env.loop = li }, to.Instrs[0].Pos())
 		}
@@ -278,6 +297,41 @@ func (x *Exec) edge(fr *Frame, st *State, from, to *ssa.BasicBlock, cond Term, e
 	es := st.clone()
 	es.pc = pc
 	edgeState[[2]int{from.Index, to.Index}] = es
+}
+
+// recordLoopMods compares the state at a back edge with the state assumed at the header and
+// records every array / ghost / binding that differs; such names are havoc'd at the header in
+// the next pass. At the fixpoint, everything not recorded is provably unchanged by the body.
+func (x *Exec) recordLoopMods(li *loopInfo, es *State) {
+	if li.head == nil {
+		return
+	}
+	mods := x.loopMods[li.key]
+	if mods == nil {
+		mods = map[string]bool{}
+		x.loopMods[li.key] = mods
+	}
+	add := func(k string) {
+		if !mods[k] {
+			mods[k] = true
+			x.grew = true
+		}
+	}
+	for name, t := range es.heap {
+		if ht, ok := li.head.heap[name]; !ok || ht != t {
+			add("h:" + name)
+		}
+	}
+	for k, v := range es.ghost {
+		if hv, ok := li.head.ghost[k]; !ok || !sameGhost(hv, v) {
+			add("g:" + k)
+		}
+	}
+	for k, v := range es.binds {
+		if hv, ok := li.head.binds[k]; !ok || !sameGhost(hv, v) {
+			add("b:" + k)
+		}
+	}
 }
 
 // step executes one instruction; returns false when the path ends.
@@ -302,7 +356,7 @@ func (x *Exec) step(fr *Frame, st *State, ins ssa.Instruction, edgeState map[[2]
 			fr.reg[ins] = PtrV{Cell: cell, Elem: elem, Ref: NilRef}
 			return true
 		}
-		ref := x.newRef(ins.Comment)
+		ref := x.newRefIn(fr, st, ins.Comment)
 		p := PtrV{Ref: ref, Elem: elem}
 		if _, isArr := elem.Underlying().(*types.Array); !isArr {
 			x.store(st, p, m.zeroValue(elem))
@@ -363,7 +417,7 @@ func (x *Exec) step(fr *Frame, st *State, ins ssa.Instruction, edgeState map[[2]
 		}
 		x.mapStore(st, mv, x.val(fr, st, ins.Key), x.val(fr, st, ins.Value))
 	case *ssa.MakeMap:
-		ref := x.newRef("map")
+		ref := x.newRefIn(fr, st, "map")
 		mv := MapV{Ref: ref, Typ: ins.Type()}
 		x.mapInit(st, mv)
 		fr.reg[ins] = mv
@@ -508,6 +562,15 @@ func (x *Exec) step(fr *Frame, st *State, ins ssa.Instruction, edgeState map[[2]
 		}
 		x.note(fmt.Sprintf("instruction %T abstracted", ins))
 	}
+	// representation invariants of slices hold for every value, wherever it was read from
+	if v, ok := ins.(ssa.Value); ok {
+		if r, ok := fr.reg[v]; ok && r != nil {
+			switch ins.(type) {
+			case *ssa.UnOp, *ssa.Call, *ssa.Lookup, *ssa.Extract, *ssa.Next, *ssa.TypeAssert, *ssa.Field:
+				m.wellFormed(r)
+			}
+		}
+	}
 	return true
 }
 
@@ -516,6 +579,52 @@ func (x *Exec) newRef(hint string) Term {
 	id := x.smt.fresh("ref."+hint, SInt)
 	x.smt.assume(And("(< "+id+" 0)", Eq(App("asite", id), IntLit(int64(x.nAlloc)))))
 	return "(base " + id + ")"
+}
+
+// newRefIn allocates a reference that is also distinct from every reference held in a local
+// variable, binding or parameter at this point (they all predate the allocation).
+func (x *Exec) newRefIn(fr *Frame, st *State, hint string) Term {
+	r := x.newRef(hint)
+	seen := map[Term]bool{NilRef: true}
+	var ds []Term
+	add := func(v Value) {
+		if v == nil {
+			return
+		}
+		if _, ok := v.(ArrayV); ok {
+			return
+		}
+		if pv, ok := v.(PtrV); ok && pv.Cell != nil {
+			return
+		}
+		ls := flatten(v)
+		sh := leafShapeAny(valueType(v))
+		if len(ls) != len(sh) {
+			return
+		}
+		for i, l := range sh {
+			if l.sort == SRef && !seen[ls[i]] && !strings.HasPrefix(ls[i], "(base ") {
+				seen[ls[i]] = true
+				ds = append(ds, Not(Eq(r, ls[i])))
+			}
+		}
+	}
+	for _, v := range st.cells {
+		add(v)
+	}
+	for _, v := range st.binds {
+		add(v)
+	}
+	for f := fr; f != nil; f = f.parent {
+		for _, v := range f.params {
+			add(v)
+		}
+	}
+	sort.Strings(ds)
+	if len(ds) > 0 {
+		x.smt.assume(Implies(st.pc, And(ds...)))
+	}
+	return r
 }
 
 func (x *Exec) boolTerm(v Value) Term {
